@@ -114,7 +114,7 @@ func encNodeOrNil(n contactql.QueryNode) string {
 
 // ---- generators ---------------------------------------------------------------------------
 
-var cqlValues = []string{"bob", "Bob Smith", "", "10", "3.5", "007", "M", "x y", "OR", "and", "name = \"x\"", "a\"b", "a\\", "\\", "a\\\\", "\"", ") OR (id = 1", "\" OR \"\" = \"",
+var cqlValues = []string{"1 2", "10=20", "3\"4", "5(6", "7,5", "1-2", "12:30", "1.2.3", "1.", ".5", "1e5", "٣", "1.٣", "bob", "Bob Smith", "", "10", "3.5", "007", "M", "x y", "OR", "and", "name = \"x\"", "a\"b", "a\\", "\\", "a\\\\", "\"", ") OR (id = 1", "\" OR \"\" = \"",
 	"é中", "tel:+123", "+12065551212", "1-2", "a.b", "it's", "x@y.com", "2020-01-01", "\n", "\t x", "a\\\"", "\\\" OR name = \\\""}
 
 func genCQLValue(r *Rng) string {
@@ -131,7 +131,8 @@ func genCQLText(r *Rng, depth int) string {
 		case 0:
 			return strconv.Quote(genCQLValue(r))
 		case 1:
-			return Pick(r, []string{"bob", "10", "3.5", "x.y", "+123-456", "tel:+1234", "it's", "a@b.c", "1/2/2020", "é", "_x", "2020-01-02"})
+			return Pick(r, []string{"bob", "10", "3.5", "x.y", "+123-456", "tel:+1234", "it's", "a@b.c", "1/2/2020", "é", "_x", "2020-01-02",
+				"Tel:+12065551212", "TWITTER:bobby", "\"Mailto:bob@nyaruka.com\"", "WhatsApp:123", "twitter:Bobby", "foo:bar", "Foo.Bar:1", "tel:+1(206)", "mailto:a@b.c"})
 		case 2:
 			return "\"" + strings.NewReplacer("\"", "", "\\", "").Replace(genCQLValue(r)) + "\""
 		case 3:
